@@ -55,12 +55,18 @@ class BurstForwarder(TRXList):
 			if trx == src_trx:
 				continue
 
+			# Match Tx/Rx frequencies of the both transceivers.
+			# The Rx frequency is looked up before the state is checked:
+			# POWEROFF (handled by another thread) first clears .running and
+			# then drops the hopping parameters, so a transceiver found
+			# running below was still tuned as looked up here.
+			rx_freq = trx.get_rx_freq(rx_msg.fn)
+
 			# Check transceiver state
 			if not trx.running:
 				continue
 
-			# Match Tx/Rx frequencies of the both transceivers
-			if trx.get_rx_freq(rx_msg.fn) != tx_freq:
+			if rx_freq != tx_freq:
 				continue
 
 			# Transform from TxMsg to RxMsg and forward
